@@ -28,6 +28,9 @@ def run(rep: core.Report):
     _r12h(rep)
     _r12i(rep)
     _r12j(rep)
+    from rules import shared_bcast
+
+    shared_bcast.run(rep, "R12k", [r for r in ["phonopy/phonon/group_velocity.py", "phonopy/gruneisen/core.py", "phonopy/gruneisen/mesh.py", "phonopy/gruneisen/band_structure.py", "phonopy/harmonic/derivative_dynmat.py"] if (core.REPO / r).is_file()])
     # R12a -------------------------------------------------------------
     fn = core.find_def(GV, "GroupVelocity._calculate_group_velocity_at_q")
     lam, fac = sp.Symbol("lam", positive=True), sp.Symbol("factor", positive=True)
